@@ -66,6 +66,7 @@ class TypeEngine(object):
         self.iattr = {}      # (root class qualname | '?', attr) -> set
         self.contents = {}   # key -> {sub: set}
         self.modvar = {}     # (mod, name) -> set
+        self.ret_items = {}  # (fq, i) -> set : types of position i of a returned tuple literal
         self.changed = False
         self.base_datatypes = base_datatypes or {}
         self._subs = {}
@@ -1071,6 +1072,18 @@ class TypeEngine(object):
                 for t, v in zip(target.elts, value_expr.elts):
                     self._assign(t, self.type_of(v, fn), v, fn)
                 return
+            if isinstance(value_expr, ast.Call):
+                tfs = [t.func.qualname for t in self.resolve_call(value_expr, fn) if t.kind == 'func' and not t.ctor]
+                if tfs and all((q, i) in self.ret_items for q in tfs for i in range(len(target.elts))):
+                    for i, t in enumerate(target.elts):
+                        ts = set()
+                        for q in tfs:
+                            ts |= self.ret_items[(q, i)]
+                        self._assign(t, ts, None, fn)
+                        if isinstance(t, ast.Name):
+                            for q in tfs:
+                                self.c_merge(('var', fq, t.id), ('retitem', q, i))
+                    return
             for i, t in enumerate(target.elts):
                 c = set()
                 if value_expr is not None:
@@ -1154,7 +1167,13 @@ class TypeEngine(object):
                 if n.value is not None:
                     returns_value = True
                     self._add(self.ret, fq, self.type_of(n.value, fn) - {'?'})
-                    self._alias(('ret', fq), n.value, fn)
+                    if isinstance(n.value, ast.Tuple):
+                        for i, el in enumerate(n.value.elts):
+                            self.ret_items.setdefault((fq, i), set())
+                            self._add(self.ret_items, (fq, i), self.type_of(el, fn) - {'?'})
+                            self._alias(('retitem', fq, i), el, fn)
+                    else:
+                        self._alias(('ret', fq), n.value, fn)
                 else:
                     self._add(self.ret, fq, {'none'})
             elif isinstance(n, (ast.Yield, ast.YieldFrom)):
